@@ -170,7 +170,8 @@ def cleaned(examples, opts):
 
 
 def matches(rex, s):
-    return re.match(re.compile(rex, RE_FLAGS), s) is not None
+    """matches IN FULL (see unmatched)"""
+    return re.fullmatch(re.compile(rex, RE_FLAGS), s) is not None
 
 
 def unmatched(rexes, strings):
